@@ -174,9 +174,8 @@ def expected_dump(top, first=2):
             item(d, "c", "", t[1])
         else:
             item(d, "p", t[1], t[2])
-    seen_root = False
     for t in top:
-        walk(t, 0, t[0] == "e")     # the builder adds xmlns:xml to every element appended to the document
+        walk(t, 0, t[0] == "e")     # xmlns:xml is added to the element appended to the document (there is only one)
     return " ".join(out)
 
 
@@ -240,6 +239,89 @@ def events_of(r, top, extra_empty=True):
         walk(t, 0)
         if r.random() < 0.2:
             ev.append("C|" + fld(r.choice([" ", "\n", "", "\t "])))     # white space between top-level nodes is ignored
+    return ev
+
+
+def ref_build(tokens):
+    """Python reference of the native builder on an arbitrary event stream (independent of the Coq model):
+    returns the expected dump or 'ERR' (text at the top level, a second document element, not well nested)."""
+    out, n, stack, buf, root_done = [], [2], [], [""], [False]
+
+    def item(d, k, name, val):
+        out.append("%d:%s:%d:%s:%s" % (d, k, n[0], name, val))
+        n[0] += 1
+
+    def flush():
+        if buf[0]:
+            item(len(stack), "t", "", fld(buf[0]))
+            buf[0] = ""
+    for tok in tokens:
+        f = tok.split("|")
+        if f[0] == "S":
+            flush()
+            if not stack and root_done[0]:
+                return "ERR"
+            item(len(stack), "e", f[1], "")
+            attrs = [(unfld(f[i]), unfld(f[i + 1])) for i in range(2, len(f) - 1, 2)]
+            order = [a for a in attrs if is_nsdecl(a[0])] + [a for a in attrs if not is_nsdecl(a[0])]
+            if not stack and not any(a[0] == "xmlns:xml" for a in attrs):
+                order = [XML_ATTR] + order
+            for a in order:
+                item(len(stack) + 1, "a", fld(a[0]), fld(a[1]))
+            stack.append(f[1])
+        elif f[0] == "E":
+            flush()
+            if not stack:
+                return "ERR"
+            stack.pop()
+            if not stack:
+                root_done[0] = True
+        elif f[0] == "C":
+            s = unfld(f[1])
+            if not stack:
+                if s.strip(" \t\n\r"):
+                    return "ERR"
+            else:
+                buf[0] += s
+        elif f[0] == "I":
+            flush()
+            item(len(stack), "t", "", f[1])
+        elif f[0] == "M":
+            flush()
+            item(len(stack), "c", "", f[1])
+        elif f[0] == "P":
+            flush()
+            item(len(stack), "p", f[1], f[2])
+    if stack:
+        return "ERR"
+    return " ".join(out)
+
+
+def random_events(r):
+    """an arbitrary well-nested event stream (not derived from a document): adjacent / empty characters events,
+    white space and text at the top level, several top-level elements"""
+    ev, depth = [], 0
+    for _ in range(r.randrange(1, 30)):
+        k = r.random()
+        if k < 0.25:
+            attrs = [(a, r.choice(["", "v", " "])) for a in r.sample(["b", "xmlns:p", "z", "xmlns", "A"], r.choice([0, 0, 1, 2, 3]))]
+            ev.append("S|" + fld(r.choice(["a", "b", "p:c"])) + "".join("|%s|%s" % (fld(a), fld(v)) for a, v in attrs))
+            depth += 1
+        elif k < 0.45 and depth > 0:
+            ev.append("E")
+            depth -= 1
+        elif k < 0.8:
+            if depth == 0 and r.random() < 0.9:
+                ev.append("C|" + fld(r.choice(["", " ", "\n", " \t"])))
+            else:
+                ev.append("C|" + fld(r.choice(["", "", " ", "x", "ab", "\n", "x y", "é"])))
+        elif k < 0.85 and depth > 0:
+            ev.append("I|" + fld(r.choice([" ", "\n ", "\t"])))
+        elif k < 0.93:
+            ev.append("M|" + fld(r.choice(["", "c", " c "])))
+        else:
+            ev.append("P|%s|%s" % (fld("pi"), fld(r.choice(["", "d"]))))
+    ev += ["E"] * depth
     return ev
 
 
@@ -579,7 +661,7 @@ def run(ctx):
     def round_(scale):
         evaluate(ctx, r, impl, model, xalan, scale, state)
 
-    round_(1 if not ctx.thorough else 12)
+    round_(1 if not ctx.thorough else 30)
     if (state["corr"] or not proved or not model) and not state["orc"] and not ctx.thorough:
         ctx.escalated = True
         round_(6)
@@ -636,6 +718,12 @@ def evaluate(ctx, r, impl, model, xalan, scale, state):
         b_lines.append("%s B %s" % (cid, " ".join(ev)))
         b_exp[cid] = expected_dump(top)
         ctx.count("B:generated")
+    for i in range(nB // 2):
+        ev = random_events(r)
+        cid = "br%d" % i
+        b_lines.append("%s B %s" % (cid, " ".join(ev)))
+        b_exp[cid] = ref_build(ev)
+        ctx.count("B:arbitrary-stream" + (":rejected" if b_exp[cid] == "ERR" else ""))
     rc_i, res_i, raw_i = core.run_lines_parallel(impl, b_lines)
     res_m = core.run_lines_parallel(model, b_lines)[1] if model else {}
     if rc_i != 0:
